@@ -244,8 +244,9 @@ pub fn setup(cfg: &CliScenarioCfg) -> CliState {
 				FeOp::Notif => client.notification("note", rpc_params![i as u64]).await.map(|_| "sent".to_string()).map_err(|e| err_str(&e)),
 				FeOp::Batch(k) => {
 					let mut b = BatchRequestBuilder::new();
+					let name = format!("bm{i}");
 					for j in 0..k {
-						b.insert("bm", rpc_params![j as u64]).unwrap();
+						b.insert(&name, rpc_params![j as u64]).unwrap();
 					}
 					let r: Result<BatchResponse<Value>, Error> = client.batch_request(b).await;
 					r.map(|b| {
@@ -361,4 +362,45 @@ pub fn no_lib_points(label: &str) -> bool {
 
 pub fn basic_verdict(_status: Status) -> Verdict {
 	Verdict { violations: vec![], outcome: String::new() }
+}
+
+/// Index of the wire message that front-end op `i` produced (None if it never reached the transport).
+pub fn wire_index_of(sent: &[String], op: &FeOp, i: usize) -> Option<usize> {
+	sent.iter().position(|m| {
+		let Ok(v) = serde_json::from_str::<Value>(m) else { return false };
+		match op {
+			FeOp::Batch(_) => v.as_array().map_or(false, |a| a.first().and_then(|e| e.get("method")).and_then(|x| x.as_str()) == Some(&format!("bm{i}"))),
+			FeOp::Subscribe => v.get("method").and_then(|x| x.as_str()) == Some("sub") && v.get("params") == Some(&json!([i])),
+			FeOp::Notif => v.get("method").and_then(|x| x.as_str()) == Some("note") && v.get("params") == Some(&json!([i])),
+			FeOp::Call | FeOp::LateCall => v.get("method").and_then(|x| x.as_str()) == Some("m") && v.get("params") == Some(&json!([i])),
+		}
+	})
+}
+
+/// Every message the client puts on the wire must be valid JSON-RPC 2.0 (C15's emission clause, checked where the client runs).
+pub fn wire_wellformed(sent: &[String]) -> Result<(), String> {
+	for m in sent {
+		let v: Value = serde_json::from_str(m).map_err(|e| format!("client emitted non-JSON {m:?}: {e}"))?;
+		let items: Vec<&Value> = match &v {
+			Value::Array(a) if !a.is_empty() => a.iter().collect(),
+			Value::Object(_) => vec![&v],
+			_ => return Err(format!("client emitted {m}")),
+		};
+		for it in items {
+			if it.get("jsonrpc") != Some(&json!("2.0")) || !it.get("method").map_or(false, |x| x.is_string()) {
+				return Err(format!("client emitted a message that is not a JSON-RPC 2.0 request/notification: {m}"));
+			}
+			if let Some(id) = it.get("id") {
+				if !(id.is_u64() || id.is_string()) {
+					return Err(format!("client emitted a request with id {id}: {m}"));
+				}
+			}
+			if let Some(p) = it.get("params") {
+				if !(p.is_array() || p.is_object()) {
+					return Err(format!("client emitted params that are not structured: {m}"));
+				}
+			}
+		}
+	}
+	Ok(())
 }
